@@ -200,8 +200,14 @@ func c16r3(w *World, rr *RuleRun) {
 	eachInstr(w.P.LibFuncs, func(fn *ssa.Function, ins ssa.Instruction) {
 		if isClosePeers(ins) {
 			nClose++
+			// the completion routine: a closure of AnnounceTraversal, or a function it starts with `go`
 			if within(fn, at) {
 				comp = fn
+			}
+			for _, e := range w.CG.CallersOf(enclosingNamed(fn)) {
+				if e.Mode == ModeGo && within(e.Caller, at) {
+					comp = fn
+				}
 			}
 		}
 	})
